@@ -655,6 +655,9 @@ pub fn eval_c20(sc: &Scenario, h: &History, _signed: &Signeds, out: &mut Outcome
         }
         out.count("c20.evaluated", 1);
         let fits = |x: &BigInt| *x <= BigInt::from(u64::MAX);
+        if !fits(&dep) || !fits(&implicit) {
+            out.count("c20.total_beyond_64_bits", 1);
+        }
         let tagset = format!("{:?}", tags);
         // helper vs node
         match csl::get_deposit(&body, &csl::BigNum::from(k.pool_deposit), &csl::BigNum::from(k.key_deposit)) {
@@ -787,6 +790,7 @@ fn profile_c20() -> Profile {
     p.plutus = 80;
     p.mint = 80;
     p.max_ops_scale = 2;
+    p.huge = 150;
     p
 }
 
@@ -833,5 +837,5 @@ pub const C20: BuilderProp = BuilderProp {
     runs_quick: 60_000,
     runs_thorough: 3_000_000,
     text: "one run = one seeded session over certificates of all kinds (explicit and parameter-based amounts, key and script credentials), withdrawals and proposals in seeded order — non-trivial = a body (built, or forced from the final builder state) with at least one certificate/withdrawal/proposal on which get_deposit / get_implicit_input, the builder's own figures and the node's table were compared; distinct = distinct state signature",
-    extra_assumptions: &["claimed for the agreement between helpers, builder and node on bodies the sessions reach; the 64-bit overflow clause on unreachable bodies is a pure function and not claimed"],
+    extra_assumptions: &["claimed for the agreement between helpers, builder and node on bodies the sessions reach (built, or forced out of the final builder state when balancing is impossible); totals beyond 64 bits are reached with explicit deposits / withdrawals near 2^63 and 2^64 and must be reported as errors by helpers and builder alike"],
 };
